@@ -149,10 +149,13 @@ class Weaver:
         for rw in rewrites:
             rule, frm, to = rw[0], rw[1], rw[2]
             count = rw[3] if len(rw) > 3 else 1
-            found = body.count(frm)
+            # whitespace-insensitive match: any run of white space in `frm` matches any run in the source
+            parts = [re.escape(x) for x in frm.split()]
+            rx = re.compile(r'\s+'.join(parts))
+            found = len(rx.findall(body))
             if found != count:
                 raise LostAnchor('%s: rewrite %s expects %d occurrence(s) of %r, found %d' % (where, rule, count, frm, found))
-            body = body.replace(frm, to)
+            body = rx.sub(lambda m: to, body)
             self._rule(rule, where, frm, to)
         return body
 
